@@ -141,7 +141,7 @@ def _tree_job(args):
     out = dict(n=0, nontrivial=0, stats={}, violations=[], disagreements=[], pairs=[], samples=[], known=[])
     for it in range(n):
         root, dirs, files = scan.gen_tree(rng, max_depth=4)
-        scan.gen_imports(rng, dirs, files, nested=False)
+        scan.gen_imports(rng, dirs, files, externals=scan.EXTERNALS if it % 3 == 1 else (), nested=False)
         # a few file names with regex metacharacters that are legal in file names (never import targets)
         for d in list(dirs):
             if rng.random() < 0.25:
@@ -152,7 +152,14 @@ def _tree_job(args):
         try:
             mp = rng.choice([(root,), (root,)] + [d for d in dirs if len(d) == 2])
             # (exclusions=() with regex_exclusions=None is rejected by the library with a TypeError: an impossible pattern instead)
-            unf = scan.real_scan(base, root, mp, exclusions=("zzzzNEVERzzzz",))
+            # one third of the projects keep external libraries in the graph as well (both scans): the internal part must behave the same
+            keep_ext = it % 3 == 1
+            extkw = {"exclude_external_libraries": False} if keep_ext else {}
+            unf = scan.real_scan(base, root, mp, exclusions=("zzzzNEVERzzzz",), **extkw)
+            if keep_ext and unf[0] == "OK":
+                mpd = scan.dotted(mp)
+                inner = lambda m: m == mpd or m.startswith(mpd + ".") or mpd.startswith(m + ".")     # at or below module_path, or one of its ancestors
+                unf = (unf[0], [m for m in unf[1] if inner(m)], [(a, b) for a, b in unf[2] if inner(a) and inner(b)], unf[3])
             if unf[0] != "OK":
                 out["violations"].append((dict(error=unf[1]), "unfiltered scan failed", {"kind": "scan_error"}))
                 continue
@@ -177,7 +184,9 @@ def _tree_job(args):
                                   ".*/" + esc(nm) + "$", "(?:.*/)?" + esc(stem) + r"(?:\.py)?$", ".*/" + esc(stem) + "/"]
                     rxs = tuple(rng.sample(raw_shapes, rng.randint(1, 2)))
                 kw = dict(exclusions=(), regex_exclusions=rxs) if use_regex else dict(exclusions=globs)
-                flt = scan.real_scan(base, root, mp, **kw)
+                flt = scan.real_scan(base, root, mp, **kw, **extkw)
+                if keep_ext and flt[0] == "OK":
+                    flt = (flt[0], [m for m in flt[1] if inner(m)], [(a, b) for a, b in flt[2] if inner(a) and inner(b)], flt[3])
                 out["n"] += 1
                 case = dict(dirs=[list(d) for d in dirs], files={scan.dotted(f): (scan.render_file(v["body"]) if v["py"] else None) for f, v in files.items()},
                             module_path=list(mp), options={k: list(v) for k, v in kw.items()})
@@ -238,6 +247,9 @@ def _tree_job(args):
                                          {"kind": "from_import_of_excluded_submodule"}))
                 if excluded and len(exp_mods) < len(unf[1]):
                     out["nontrivial"] += 1
+                if keep_ext:
+                    out["stats"]["externals_kept"] = out["stats"].get("externals_kept", 0) + 1
+                    continue
                 enc = rules.Enc()
                 table = scan.excluded_table(str(base), dirs, files, rxs)
                 wcase = scan.model_scan_case(enc, root, dirs, files, mp, excluded_paths=table)
